@@ -56,7 +56,7 @@ PROPS = {
     },
     "C15": {
         "domains": [{"name": "set", "n_quick": 3000, "n_thorough": 30000}, {"name": "hlp", "n_quick": 600, "n_thorough": 15000}],
-        "lean_modules": ["SMD.Proofs.SetAlgebra", "SMD.Properties.C15", "SMD.Properties.C04Exact"],
+        "lean_modules": ["SMD.Proofs.SetAlgebra", "SMD.Properties.C15", "SMD.Properties.C15Laws", "SMD.Properties.C04Exact"],
         "theorems": [],
         "assumptions": [],
     },
